@@ -209,16 +209,17 @@ void bn_div_rem_dig(bn_t c, dig_t *d, const bn_t a, dig_t b) {
 		bn_copy(q, a);
 		bn_div1_low(q->dp, &r, (const dig_t *)a->dp, b, a->used);
 
-		if (c != NULL) {
-			bn_copy(c, q);
-		}
-
+		/* The sign of a is read before c is written, since c may alias a. */
 		if (d != NULL) {
 			if (bn_sign(a) == RLC_NEG) {
 				*d = b - r;
 			} else {
 				*d = r;
 			}
+		}
+
+		if (c != NULL) {
+			bn_copy(c, q);
 		}
 	}
 	RLC_CATCH_ANY {
